@@ -239,6 +239,40 @@ pub proof fn lemma_fold_prefix(rs: Seq<SR>, k: int)
     }
 }
 
+/// C17.wal.commit_after_tail_durable (log level) — whatever the records before (an aborted transaction included), a
+/// transaction written as BeginTx, its operations, CommitTx becomes exactly one more committed transaction, and the
+/// ones before are unchanged.  With Wal::append's postcondition (each record lands right after the last complete
+/// record, whatever tail the file had), the replay postcondition and lemma_tail_tolerated this is the property's last
+/// clause: what is committed after a dirty open is there at every later open, whatever is appended behind it.
+pub proof fn lemma_commit_durable(rs: Seq<SR>, t: u64, ops: Seq<SR>, k: int)
+    requires !fold_records(rs).err, 0 <= k <= ops.len(),
+        forall|i: int| 0 <= i < ops.len() ==> !(#[trigger] ops[i] is BeginTx) && !(ops[i] is CommitTx),
+    ensures ({ let st = fold_records(rs.push(SR::BeginTx { txid: t }) + ops.take(k));
+               !st.err && st.cur == Some(t) && st.pending == ops.take(k) && st.out == fold_records(rs).out }),
+            k == ops.len() ==> ({ let fin = fold_records(rs.push(SR::BeginTx { txid: t }) + ops + seq![SR::CommitTx { txid: t }]);
+               !fin.err && fin.cur is None && fin.out == fold_records(rs).out.push((t, ops)) }),
+    decreases k
+{
+    let pre = rs.push(SR::BeginTx { txid: t });
+    if k == 0 {
+        assert(pre + ops.take(0) =~= pre);
+        assert(pre.drop_last() =~= rs);
+        assert(ops.take(0) =~= Seq::<SR>::empty());
+    } else {
+        lemma_commit_durable(rs, t, ops, k - 1);
+        let a = pre + ops.take(k);
+        assert(a.drop_last() =~= pre + ops.take(k - 1));
+        assert(a.last() == ops[k - 1]);
+        assert(ops.take(k - 1).push(ops[k - 1]) =~= ops.take(k));
+    }
+    if k == ops.len() {
+        assert(ops.take(k) =~= ops);
+        let f = pre + ops + seq![SR::CommitTx { txid: t }];
+        assert(f.drop_last() =~= pre + ops);
+        assert(f.last() == SR::CommitTx { txid: t });
+    }
+}
+
 /// Once the fold has hit a protocol error it stays in error.
 pub proof fn lemma_fold_err_sticky(rs: Seq<SR>, k: int)
     requires 0 <= k <= rs.len(), fold_records(rs.take(k)).err,
